@@ -29,10 +29,10 @@ PROP_MODULES = {
     "C07": ["contracts.c07"],
     "C20": ["contracts.c20"],
     "C06": ["contracts.c06"],
-    "C01": ["contracts.c01", "contracts.c01_enums", "contracts.c02"],
+    "C01": ["contracts.c01", "contracts.c01_enums", "contracts.c02", "contracts.c01_f2s"],
     "C15": ["contracts.c15"],
     "C14": ["contracts.c14"],
-    "C03": ["contracts.c03"],
+    "C03": ["contracts.c03", "contracts.c01_f2s"],
     "C18": ["contracts.c18"],
     "C13": ["contracts.c13"],
     "C02": ["contracts.c02", "contracts.c01_enums"],
